@@ -215,7 +215,7 @@ SCANS = {
     "C08": ("C08-R10", {"turmoil::for_pairs": "hold / release apply to every ordered pair of the two host sets",
                         "turmoil::top::Link::hold": "every queued message is put on hold",
                         "turmoil::top::Link::release": "every held message is released",
-                        "turmoil::top::Link::process_deliverables": "every due message is moved to the deliverable queue, whatever precedes it",
+                        "turmoil::top::Link::take_due": "every due message addressed to the host is taken, whatever precedes it",
                         "turmoil::top::LinkIter::deliver_all": "every held message of the link is delivered",
                         "turmoil::top::Link::deliver_messages": "every deliverable message is handed to its host",
                         "turmoil::top::Topology::deliver_messages": "every link delivers on every step"}),
@@ -223,7 +223,7 @@ SCANS = {
     "C13": ("C13-R8", {"turmoil_net::kernel::tcp::on_close": "every queued connection of a closing listener is reset",
                        "turmoil_net::kernel::tcp::reap_closed": "every closed connection is reclaimed",
                        "turmoil_net::kernel::socket::wake_all": "every waiter is woken"}),
-    "C14": ("C14-R5", {"turmoil::top::Link::process_deliverables": "every message whose delivery time has come is delivered this tick",
+    "C14": ("C14-R5", {"turmoil::top::Link::take_due": "every message whose delivery time has come is delivered this tick",
                        "turmoil::top::Topology::tick_by": "every link is ticked"}),
     "C18": ("C18-R8", {"turmoil_io_uring::submit::schedule_pending": "every submitted entry is scheduled",
                        "turmoil_io_uring::host::IoUringHostState::crash": "every pending operation is cancelled by a crash"}),
